@@ -13,6 +13,7 @@ import (
 // c11R6: rules added after the sixth independent seeding round.
 func c11R6(r *core.Run) {
 	p := r.P
+	defer c11R9(r)
 	r.Explanation += " By evaluation (c11_eval.go) of the code that reads the `db` struct tag on sample tags: the name a field is registered under is the tag up to its first comma, empty for an untagged field."
 	r.NotDecided += " Tag names: only the sample tags are evaluated (no option, one, two and three options, empty options, no tag); a tag whose name part is empty (`db:\",opt\"`) is not specified; the way from the parsed name into the tag map is followed only when the parser hands the raw tag on (accessor) or the parse is inlined into the map/slice builder; code that parses the tag through closures, reflection or packages other than strings is reported as not evaluable; out-of-range panics are reported only on paths without an undetermined branch."
 
